@@ -1,5 +1,5 @@
 ENGINES = [
-    {"name": "pyscan", "path": "vt/", "serves_properties": ["C13", "C19", "C20"],
+    {"name": "pyscan", "path": "vt/", "serves_properties": ["C10", "C11", "C13", "C19", "C20"],
      "kind_free_text": "runtime monitoring of the real Python scanner modules imported from /repo's working tree: recorded events judged by independent reference models, icontract invariants on live objects"},
 ]
 NOTES = "All checks: ./check <id> --tier quick|thorough [--seed N]; VERIF_SEED/VERIF_TIER honoured. Exit 0 held / 1 VIOLATION / 2 INCONCLUSIVE. See DESIGN.md."
@@ -15,3 +15,10 @@ add('C19', 'pyscan', 'runtime monitoring: icontract postcondition (reference mod
 add('C13', 'pyscan', 'runtime monitoring: generated headers driven through the real scanner passes (stand-in C front end), emitted GIR judged by a model-derived reference; icontract postcondition on Transformer._enum_common_prefix',
     'held on the executions produced: every enum/flags/constant of every generated header was found exactly once with the expected kind, member order, identifiers, exact values, whole-word-stripped names, type and in-range value; 5 recorded known findings (unsigned constant types that are never wrapped)',
     'trusted: stand-in C parser (reproduces 8 upstream expected GIRs byte for byte), stub GLib GIR; signed constants generated in range', 'DESIGN.md 4 C13')
+
+add('C10', 'pyscan', 'runtime monitoring: block models rendered in random layouts and parsed by the real GtkDocCommentBlockParser; parsed tree, part positions, diagnostics (recorded at MessageLogger.log) and writer round trip judged against the model; upstream test vectors replayed',
+    'held on the executions produced: every rendering of every model parsed back to the model (annotations with ordered options / key=value pairs, parameters, description, tags), strict-vocabulary blocks without any diagnostic, parts positioned on the line they were written on, write+parse a fixed point; 371 upstream vectors agree with upstream\'s expected trees',
+    'trusted: model renderer (docgen.py); one blank after the asterisk; descriptions never start with "(", "@", ":" or a tag name', 'DESIGN.md 4 C10')
+add('C11', 'pyscan', 'runtime monitoring: hostile comment text between two well-formed blocks through the real parse_comment_blocks; exception watcher on parse_comment_block, diagnostic recorder before the suppression test, position/caret oracle against the source text, counting oracle, --warn-error exit status through scanner_main',
+    'held on the executions produced: nothing escaped and nothing raised inside the parser; neighbour blocks intact; rejected annotation fields left no annotations; every diagnostic named the file and a line of the block, quoted the real source line with the caret inside it (scope of the statement); every diagnostic counted whether displayed or not; scanner_main --warn-error failed exactly when a diagnostic was recorded',
+    'trusted: mutation generators; caret check scoped to blocks whose /** stands alone and without deprecated tag-style annotations; CLI path uses the stand-in C front end', 'DESIGN.md 4 C11')
